@@ -261,3 +261,57 @@ func Subset(u []*triple.Triple, mask int) []*triple.Triple {
 	}
 	return out
 }
+
+// BoundAliasShapes: two-clause patterns whose second clause takes a time bound from a
+// binding of the first ("p"@[?t,], "p"@[,?t], ...).
+func BoundAliasShapes() [][]Clause {
+	firsts := []Clause{
+		{S: Term{Kind: Bind, Name: "?s"}, P: Term{Kind: AnchorBind, ID: "p", Name: "?t"}, O: Term{Kind: Bind, Name: "?o"}},
+		{S: Term{Kind: Bind, Name: "?s"}, P: Term{Kind: Bind, Name: "?q", AtAlias: "?t"}, O: Term{Kind: Const, N: NB}},
+		{S: Term{Kind: Const, N: NA}, P: Term{Kind: AnchorBind, ID: "q", Name: "?t"}, O: Term{Kind: Bind, Name: "?o"}},
+	}
+	t1 := model.T1
+	ps := []Term{
+		{Kind: Bound, ID: "p", LoName: "?t"},
+		{Kind: Bound, ID: "p", HiName: "?t"},
+		{Kind: Bound, ID: "p", LoName: "?t", HiName: "?t"},
+		{Kind: Bound, ID: "p", Lo: &t1, HiName: "?t"},
+		{Kind: Bound, ID: "q", LoName: "?t"},
+	}
+	ss := []Term{{Kind: Bind, Name: "?s"}, {Kind: Bind, Name: "?r"}, {Kind: Const, N: NA}}
+	os := []Term{{Kind: Bind, Name: "?e"}, {Kind: Const, N: NB}}
+	var out [][]Clause
+	for _, f := range firsts {
+		for _, p := range ps {
+			for _, s2 := range ss {
+				for _, o2 := range os {
+					if f.S.Kind == Const && s2.Kind == Bind && s2.Name == "?s" {
+						continue
+					}
+					out = append(out, []Clause{f, {S: s2, P: p, O: o2}})
+				}
+			}
+		}
+	}
+	return out
+}
+
+// BoundAliasGraphs: anchors of the first clause's rows not in ascending order.
+func BoundAliasGraphs() []map[string][]*triple.Triple {
+	T := model.T
+	a, b, c := NA, NB, NC
+	p0, p1, p2, p3 := model.PT("p", model.T0), PT1, PT2, PT3
+	q1, q2 := model.PT("q", model.T1), QT2
+	gs := [][]*triple.Triple{
+		// anchors of the first clause's rows NOT in ascending order of the subjects; later triples before earlier ones
+		{T(a, p2, model.ON(b)), T(c, p1, model.ON(b)), T(b, p3, model.ON(b)), T(a, p1, model.ON(c)), T(c, p0, model.ON(b)), T(a, p3, model.ON(b)), T(c, p3, model.ON(c))},
+		{T(a, p1, model.ON(b)), T(a, p2, model.ON(b)), T(a, q2, model.ON(b)), T(a, q1, model.ON(c)), T(b, p2, model.ON(b)), T(b, p0, model.ON(a))},
+		{T(a, PImm, model.ON(b)), T(a, p1, model.ON(b))},
+		{},
+	}
+	var out []map[string][]*triple.Triple
+	for _, g := range gs {
+		out = append(out, map[string][]*triple.Triple{"?g": g})
+	}
+	return out
+}
